@@ -234,6 +234,12 @@ def run(ctx):
     else:
         morecorr1.run(ctx, impl, common.Model(), rng, ctexts[:12], nlogic=80, nquoted=80, nfuzz=150)
     morecorr2.run(ctx, impl, common.Model(), rng, ctexts if ctx.thorough else ctexts[:12])
+    # ... Model/OracleRw.v (7 mutators that consult the sort oracle, default constants, variables, datatype tables; dispatch 120-127)
+    # and Model/GlobalRw.v (the 7 mutators with global simplifications or deletions; dispatch 130-136): all 53 mutators have a model
+    import morecorr3
+    import morecorr4
+    morecorr3.run(ctx, impl, common.Model(), rng, ctexts if ctx.thorough else ctexts[:10])
+    morecorr4.run(ctx, impl, common.Model(), rng, ctexts if ctx.thorough else ctexts[:10])
     ctx.extra['proposals_per_mutator'] = dict(sorted(per_mut.items()))
     ctx.extra['mutators_never_exercised'] = sorted(set(c for _, c, _ in P.all_mutators()) - set(per_mut))
     ctx.assumptions += ['inputs are well-sorted scripts of the typed generator and their partially reduced forms']
